@@ -29,6 +29,17 @@ class Sentinel:
 DEFAULT_OBJ = Sentinel()
 
 
+import decimal, enum, fractions  # noqa: E401,E402
+
+
+class Prio(enum.IntEnum):
+    LOW = 2
+
+
+class Level(enum.IntEnum):
+    BASIC = 2
+
+
 def make_model(fields, kwargs_param, name="M"):
     """a plain class whose __init__ has exactly the requested parameter kinds and records what it receives"""
     pos_only = [f for f in fields if f.kind == "pos_only"]
@@ -90,6 +101,40 @@ def make_dataclass_model(fields, name="M"):
     return dataclasses.make_dataclass(name, specs)
 
 
+def make_attrs_model(fields, name="M"):
+    """an attrs class; `param` becomes the attrs alias, i.e. the constructor parameter is named differently from the field"""
+    import attrs
+    ns = {}
+    for f in fields:
+        kw = {}
+        if f.default is not None:
+            kw["default"] = f.default[1] if f.default[0] == "value" else attrs.Factory(f.default[1])
+        if f.kind == "kw_only":
+            kw["kw_only"] = True
+        if f.param is not None:
+            kw["alias"] = f.param
+        ns[f.name] = attrs.field(**kw)
+    ns["__annotations__"] = {f.name: opaque_type(f.name) for f in fields}
+    return attrs.define(type(name, (), ns))
+
+
+def make_attrs_custom_init_model(fields, name="M"):
+    """an attrs class with a hand-written __init__ (attrs then generates __attrs_init__): the defaults that count are the
+    ones of the real __init__ signature, the attribute declarations carry DIFFERENT ones"""
+    import attrs
+    ns = {}
+    for f in fields:
+        ns[f.name] = attrs.field(default=("attribute-level default", f.name)) if f.default is not None else attrs.field()
+    ns["__annotations__"] = {f.name: opaque_type(f.name) for f in fields}
+    pars = ", ".join(f"{f.name}: _t_[{f.name!r}]" if f.default is None else f"{f.name}: _t_[{f.name!r}] = _d_[{f.name!r}]"
+                     for f in fields)
+    glob = {"_d_": {f.name: f.default[1] for f in fields if f.default is not None},
+            "_t_": {f.name: opaque_type(f.name) for f in fields}}
+    exec(f"def __init__(self, {pars}):\n    self.__attrs_init__({', '.join(f.name for f in fields)})\n", glob)  # noqa: S102
+    ns["__init__"] = glob["__init__"]
+    return attrs.define(type(name, (), ns))
+
+
 @dataclass
 class Case:
     label: str
@@ -105,7 +150,11 @@ class Case:
     layout: Any = None
 
     def build(self):
-        if self.model_kind == "init" or self.kwargs_param:
+        if self.model_kind == "attrs":
+            self.model = make_attrs_model(self.fields)
+        elif self.model_kind == "attrs-init":
+            self.model = make_attrs_custom_init_model(self.fields)
+        elif self.model_kind == "init" or self.kwargs_param:
             self.model = make_model(self.fields, self.kwargs_param)
         else:
             self.model = make_dataclass_model(self.fields)
@@ -160,8 +209,8 @@ class _PassThrough:
 R, O = True, False
 
 
-def F(name, required=True, default=None, kind="pos_or_kw"):
-    return FieldSpec(name, required, default, kind)
+def F(name, required=True, default=None, kind="pos_or_kw", param=None):
+    return FieldSpec(name, required, default, kind, param)
 
 
 def base_models():
@@ -175,6 +224,12 @@ def base_models():
         "kwonly": [F("a"), F("b", O, ("value", 1), "kw_only"), F("c", True, None, "kw_only")],
         "lookalike-defaults": [F("a", O, ("value", True)), F("b", O, ("value", 1)), F("c", O, ("value", 1.0)),
                                F("d", O, ("factory", dict))],
+        # defaults EQUAL TO the constants True / 0 / 1 without being them, one-element tuple, range with a step
+        "constant-lookalike-defaults": [F("a", O, ("value", decimal.Decimal(1))), F("b", O, ("value", fractions.Fraction(0))),
+                                        F("c", O, ("value", (7,))), F("d", O, ("value", range(0, 10, 2)))],
+        # defaults that are not renderable as literals, equal and hash-equal to one another but of different types
+        "equal-nonliteral-defaults": [F("a", O, ("value", Prio.LOW)), F("b", O, ("value", Level.BASIC)),
+                                      F("c", O, ("value", decimal.Decimal("2.5"))), F("d", O, ("value", fractions.Fraction(5, 2)))],
     }
 
 
@@ -210,7 +265,7 @@ def loader_family(tier="quick"):
             continue            # documented refusal: optional fields cannot be mapped to list elements
         if nname == "skip-b" and not any(f.name in ("b", "b_") and not f.required for f in fields):
             continue            # skipping a required field is a documented refusal
-        if tier == "quick" and mname == "lookalike-defaults" and nname not in ("plain", "rename"):
+        if tier == "quick" and mname in ("lookalike-defaults", "equal-nonliteral-defaults", "constant-lookalike-defaults") and nname not in ("plain", "rename"):
             continue            # the four-field model is combined with every layout only in the thorough tier
         if tier == "quick" and mname in ("three", "kwonly") and nname == "nested-forbid" and dt.name == "ALL":
             continue
@@ -229,4 +284,16 @@ def loader_family(tier="quick"):
         cases.append(Case(f"posonly/skip-b/{dt.name}/strict",
                           [F("a", True, None, "pos_only"), F("b", O, ("value", 5), "pos_or_kw"), F("c", O, ("value", 6), "pos_or_kw")],
                           {"skip": ["b"]}, dt, True, model_kind="init"))
+    # constructor parameters named differently from the field (attrs alias), passed positionally and by keyword
+    for dt in DebugTrail:
+        cases.append(Case(f"attrs-alias/plain/{dt.name}/strict",
+                          [F("a"), F("b", True, None, "pos_or_kw", "bee"), F("c", O, ("value", 6), "kw_only", "sea"),
+                           F("d", True, None, "kw_only", "dee")],
+                          {}, dt, True, model_kind="attrs"))
+        cases.append(Case(f"attrs-alias/skip-b/{dt.name}/strict",
+                          [F("a"), F("b", O, ("value", 5), "pos_or_kw", "bee"), F("c", O, ("value", 6), "pos_or_kw", "sea")],
+                          {"skip": ["b"]}, dt, True, model_kind="attrs"))
+        cases.append(Case(f"attrs-custom-init/plain/{dt.name}/strict",
+                          [F("a"), F("b", O, ("value", 6543)), F("c", O, ("value", None))],
+                          {}, dt, True, model_kind="attrs-init"))
     return cases
